@@ -34,7 +34,8 @@ THEOREMS = [
     "C01_rerun_pinned_witness",
 ]
 RULE = (
-    "random acyclic data graphs over 2..N term nodes inserted in random (non-topological) order, 3 input slots "
+    "random acyclic data graphs over 2..N term nodes (function nodes, and macros wrapping the same function with the "
+    "macro or its inner node handed to the executor) inserted in random (non-topological) order, 3 input slots "
     "each with 0..2 connections, random executor assignment, random completion schedule at every schedule point "
     "(idle sleep + after every emission); thorough adds exhaustive schedule DFS for small graphs. Non-trivial = "
     ">= 3 nodes and >= 1 edge; distinct by canonical case"
@@ -64,7 +65,8 @@ def build(case):
     wf = Workflow("w", autoload=None)
     ns = {}
     for i in case["order"]:
-        n = nodes.term_node(i, label=f"n{i}")
+        # a child is a function node or a macro wrapping that function (same term to the outside)
+        n = nodes.macro_node(i, label=f"n{i}") if i in case.get("macro", []) else nodes.term_node(i, label=f"n{i}")
         wf.add_child(n)
         ns[i] = n
     for i in case["order"]:
@@ -119,6 +121,15 @@ def gen_cases(rng, tier):
         ex = [i for i in range(n) if rng.random() < 0.45]
         yield {"n": n, "order": order, "slots": slots, "exec": ex, "fails": [],
                "mode": rng.choice(["ctl", "ctl", "ctl-cloudpickle"]),
+               "choices": [rng.randint(0, 4) for _ in range(4 * n)]}
+    # macro children: some children are macros wrapping the same function; the macro or its inner node may be out
+    for _ in range(80 if tier == "quick" else 800):
+        n = rng.randint(2, 6 if tier == "quick" else 10)
+        order, slots = gen_dag(rng, n, 0.6)
+        macro = [i for i in range(n) if rng.random() < 0.5] or [rng.randrange(n)]
+        ex = [i for i in range(n) if rng.random() < 0.4]
+        yield {"n": n, "order": order, "slots": slots, "exec": ex, "fails": [], "mode": "ctl", "macro": macro,
+               "inner_exec": [i for i in macro if i not in ex and rng.random() < 0.5],
                "choices": [rng.randint(0, 4) for _ in range(4 * n)]}
     # re-runs: run one with an injected fault, failure cleared and cause removed, run two under another schedule
     for _ in range(80 if tier == "quick" else 800):
@@ -232,14 +243,76 @@ def case_after_swaps(case):
     return {**case, "slots": slots}
 
 
+def _nested_tools():
+    """schedule points for graphs with macro children: only the OUTERMOST composite's points are schedule
+    points of the (flat) model; inside a macro's own loop the macro's outstanding job is simply completed"""
+    from .execsim import Instrument, Scheduler, Stuck, _run_job
+
+    class NestedScheduler(Scheduler):
+        top = None
+        stack: list = []
+
+        def nested(self):
+            return bool(self.stack) and self.stack[-1] is not self.top
+
+        def at_emit(self):
+            if self.nested():
+                return
+            super().at_emit()
+
+        def at_sleep(self, *a):
+            if self.nested():
+                inner = self.stack[-1]
+                for k, job in enumerate(self.jobs):
+                    if getattr(job[0], "parent", None) is inner:
+                        self.points += 1
+                        if self.points > self.max_points:
+                            raise Stuck("step budget exceeded")
+                        _run_job(self.jobs.pop(k))
+                        return
+                raise Stuck("nested composite idle with nothing of its own outstanding")
+            super().at_sleep(*a)
+
+    class NestedInstrument(Instrument):
+        def __enter__(self):
+            super().__enter__()
+            comp, sched = self.comp, self.sched
+            self.old_loop = comp.Composite._on_run
+            old_loop = self.old_loop
+
+            def loop(self_, *a, **k):
+                sched.stack.append(self_)
+                try:
+                    return old_loop(self_, *a, **k)
+                finally:
+                    sched.stack.pop()
+
+            comp.Composite._on_run = loop
+            return self
+
+        def __exit__(self, *exc):
+            self.comp.Composite._on_run = self.old_loop
+            return super().__exit__(*exc)
+
+    return NestedScheduler, NestedInstrument
+
+
 def _one_run(case, wf, ns, choices, on_exec, mode):
     from . import nodes
     from .execsim import CtlExecutor, Instrument, Scheduler, Stuck, term_str
 
+    if case.get("macro"):
+        Scheduler, Instrument = _nested_tools()
     sched = Scheduler(choices, ident=lambda owner: owner.label[1:])
+    if case.get("macro"):
+        sched.top = wf
+        sched.stack = []
     exe = CtlExecutor(sched, mode)
     for i in ns:
         ns[i].executor = exe if i in on_exec else None
+    for i in case.get("inner_exec", []):
+        if i in case.get("macro", []):
+            ns[i].inner.executor = exe  # the function node INSIDE the macro is what goes to the executor
     wiring = {}
 
     import pyiron_workflow.nodes.composite as comp
